@@ -108,7 +108,7 @@ def check_midrun(case, stats):
     tags = {"midrun", "kind:" + cfg["kind"], "second-load-fails" if e1 is not None else "second-load-ok"}
     if fault is not None:
         try:
-            s2.run()
+            core.call_with_limit(s2.run, 120, "run-does-not-return", case, "run() on a program that stepping finished")
             raise Violation("run-misses-fault", case, f"stepping raised {fault!r}, run() returned normally")
         except InstructionExecutionException as ex:
             if ex.address != fault.address:
@@ -120,14 +120,14 @@ def check_midrun(case, stats):
         return
     final = _snap(s1, cfg)
     try:
-        s2.run()
+        core.call_with_limit(s2.run, 120, "run-does-not-return", case, "run() on a program that stepping finished")
     except Exception as ex:
         raise Violation("run-raises", case, f"stepping finished normally but run() raised {type(ex).__name__}: {ex}")
     b = _snap(s2, cfg)
     if b != final:
         raise Violation("run-differs-from-stepping", case, f"after a mid-run load: differs in {snap.diff_keys(final, b)} (stepping needed {n} steps)")
     r = s1.step()
-    s1.run()
+    core.call_with_limit(s1.run, 120, "run-does-not-return", case, "run() on a simulation that is done")
     if r is not False or _snap(s1, cfg) != final:
         raise Violation("done-not-stable", case, "step()/run() after done changed the state or step() did not return False")
     stats.count(case, n >= 1, tags | {"end:done", "stepped-after-midrun-load" if n else "done-at-once"}, sample_tag="midrun:" + cfg["kind"])
@@ -160,7 +160,7 @@ def check(case, stats):
                 if s1.is_done() and not s1.has_started:
                     probed += 1
                     s1.step()
-                    s1.run()
+                    core.call_with_limit(s1.run, 120, "run-does-not-return", case, "run() on a simulation that is done")
             except Exception as ex:
                 raise Violation("probe-raises", case, f"is_done/step/run on a not-started simulation after load #{i}: {type(ex).__name__}: {ex}")
             if s1.has_started:
@@ -225,7 +225,9 @@ def check(case, stats):
             fn = {"step": s1.step, "run": s1.run, "first": getattr(s1, "first_cycle_step", s1.step), "second": getattr(s1, "second_cycle_step", s1.step),
                   "single": getattr(s1, "single_step", s1.step)}[call]
             try:
-                r = fn()
+                r = core.call_with_limit(fn, 120, "run-does-not-return", case, f"{call}() on a simulation that is done")
+            except Violation:
+                raise
             except Exception as ex:
                 raise Violation("call-after-done-raises", case, f"{call}: {type(ex).__name__}: {ex}")
             after_calls += 1
@@ -236,7 +238,7 @@ def check(case, stats):
                 raise Violation("step-return-value", case, f"step() after done returned {r!r}")
         # run() twin
         try:
-            s2.run()
+            core.call_with_limit(s2.run, 120, "run-does-not-return", case, "run() on a program that stepping finished")
         except Exception as ex:
             raise Violation("run-raises", case, f"stepping finished normally but run() raised {type(ex).__name__}: {ex}")
         b = _snap(s2, cfg)
@@ -244,7 +246,7 @@ def check(case, stats):
             raise Violation("run-differs-from-stepping", case, f"differs in {snap.diff_keys(final, b)}")
     elif ended == "fault":
         try:
-            s2.run()
+            core.call_with_limit(s2.run, 120, "run-does-not-return", case, "run() on a program that stepping finished")
             raise Violation("run-misses-fault", case, f"stepping raised {fault!r}, run() returned normally")
         except InstructionExecutionException as ex:
             if ex.address != fault.address:
